@@ -1,0 +1,122 @@
+//! Prover-side adversary knobs for the external verification harness (cargo feature
+//! `verif_hooks`, off by default). All knobs default to the honest behaviour; with the feature
+//! off none of this is compiled and the prover is unchanged.
+//!
+//! The knobs live in process-global atomics (the prover reads some of them from rayon worker
+//! threads), are set by `set` and cleared by `reset`. They are meant for a single-threaded driver.
+use core::sync::atomic::{AtomicU64, Ordering};
+
+/// Maximal number of single-cell overrides of the wire matrix.
+pub const MAX_OVERRIDES: usize = 4;
+
+#[derive(Clone, Copy, Debug, Default, PartialEq, Eq)]
+pub struct AdversaryKnobs {
+    /// Keep proving although witness generation reports an inconsistency: a conflicting
+    /// assignment to a copy class is ignored (first value wins), generators that fail or never
+    /// run are ignored, looked-up inputs missing from their table get no multiplicity.
+    pub skip_witness_checks: bool,
+    /// `(row, column, canonical value)` written into the wire matrix after witness generation and
+    /// before the wires are committed.
+    pub override_cells: [Option<(usize, usize, u64)>; MAX_OVERRIDES],
+    /// Commit to all-zero `Z` and partial-product polynomials.
+    pub z_all_zero: bool,
+    /// Start the permutation accumulator at this value instead of one.
+    pub z_first_override: Option<u64>,
+    /// `(challenge index, delta)`: add `delta` to the constant coefficient of that challenge's
+    /// quotient polynomial.
+    pub quotient_perturb: Option<(usize, u64)>,
+    /// Use this proof-of-work witness instead of grinding.
+    pub pow_witness_override: Option<u64>,
+    /// Truncate a quotient polynomial that exceeds the degree bound instead of aborting.
+    pub lenient_trim: bool,
+    /// Shift each table's lookup running sums (partial SLDC polynomials) by a constant so that the
+    /// final value is zero, i.e. start the sum from a non-zero value on the row after the table.
+    pub sldc_shift: bool,
+}
+
+const WORDS: usize = 8 + 3 * MAX_OVERRIDES;
+#[allow(clippy::declare_interior_mutable_const)]
+const ZERO: AtomicU64 = AtomicU64::new(0);
+static STATE: [AtomicU64; WORDS] = [ZERO; WORDS];
+
+const SKIP: u64 = 1;
+const ZZERO: u64 = 2;
+const ZFIRST: u64 = 4;
+const QPERT: u64 = 8;
+const POW: u64 = 16;
+const LENIENT: u64 = 32;
+const SLDC: u64 = 64;
+const OVERRIDE0: u64 = 256;
+
+/// Install `k` (process-wide).
+pub fn set(k: AdversaryKnobs) {
+    let mut w = [0u64; WORDS];
+    let mut flags = 0;
+    if k.skip_witness_checks {
+        flags |= SKIP;
+    }
+    if k.z_all_zero {
+        flags |= ZZERO;
+    }
+    if let Some(v) = k.z_first_override {
+        flags |= ZFIRST;
+        w[1] = v;
+    }
+    if let Some((i, d)) = k.quotient_perturb {
+        flags |= QPERT;
+        w[2] = i as u64;
+        w[3] = d;
+    }
+    if let Some(v) = k.pow_witness_override {
+        flags |= POW;
+        w[4] = v;
+    }
+    if k.lenient_trim {
+        flags |= LENIENT;
+    }
+    if k.sldc_shift {
+        flags |= SLDC;
+    }
+    for (j, o) in k.override_cells.iter().enumerate() {
+        if let Some((r, c, v)) = o {
+            flags |= OVERRIDE0 << j;
+            w[8 + 3 * j] = *r as u64;
+            w[9 + 3 * j] = *c as u64;
+            w[10 + 3 * j] = *v;
+        }
+    }
+    w[0] = flags;
+    for (s, v) in STATE.iter().zip(w) {
+        s.store(v, Ordering::SeqCst);
+    }
+}
+
+/// Back to the honest prover.
+pub fn reset() {
+    set(AdversaryKnobs::default());
+}
+
+/// The knobs currently installed.
+pub fn get() -> AdversaryKnobs {
+    let mut w = [0u64; WORDS];
+    for (s, v) in STATE.iter().zip(w.iter_mut()) {
+        *v = s.load(Ordering::SeqCst);
+    }
+    let f = w[0];
+    let mut k = AdversaryKnobs {
+        skip_witness_checks: f & SKIP != 0,
+        z_all_zero: f & ZZERO != 0,
+        z_first_override: (f & ZFIRST != 0).then_some(w[1]),
+        quotient_perturb: (f & QPERT != 0).then_some((w[2] as usize, w[3])),
+        pow_witness_override: (f & POW != 0).then_some(w[4]),
+        lenient_trim: f & LENIENT != 0,
+        sldc_shift: f & SLDC != 0,
+        ..Default::default()
+    };
+    for j in 0..MAX_OVERRIDES {
+        if f & (OVERRIDE0 << j) != 0 {
+            k.override_cells[j] = Some((w[8 + 3 * j] as usize, w[9 + 3 * j] as usize, w[10 + 3 * j]));
+        }
+    }
+    k
+}
